@@ -130,7 +130,10 @@ def main():
         if excl.get(o.id):
             extra = ["--exclude", json.dumps(excl[o.id])]
         wall = int(o.timeout * 2.5 + 90)
-        return o, run_worker(prop, o.id, "run", extra, wall)
+        res = run_worker(prop, o.id, "run", extra, wall)
+        sys.stderr.write("  .. %s %s %ss\n" % (o.id, res.get("verdict"), res.get("proc_wall_s")))
+        sys.stderr.flush()
+        return o, res
 
     results = []
     with ThreadPoolExecutor(max_workers=a.jobs) as ex:
